@@ -133,6 +133,31 @@ def collect_views(ca: pa.ChunkedArray, arr: NEA):
         agree = False
         notes.append("get_list_series differs from to_lists")
 
+    # the same views restricted to a selection of fields that is NOT a prefix of the struct order: the requested fields,
+    # in the requested order, each holding what the all-fields view holds for it
+    sel = names[::-1][: max(1, len(names) - 1)]
+
+    def selected_views():
+        dl = s.nest.to_lists(fields=sel)
+        assert list(dl.columns) == sel and list(dl.index) == labels, "to_lists(fields): columns / index"
+        df_ = s.nest.to_flat(fields=sel)
+        assert list(df_.columns) == sel, "to_flat(fields): columns"
+        out_l = [list(lists_py(dl[c].array._pa_array.combine_chunks())) for c in sel]
+        out_f = ([ordinal[x] for x in df_.index], [core.child_values(df_[c].array._pa_array.combine_chunks()) for c in sel])
+        return out_l, out_f
+    v_sel = attempt(selected_views)
+    if v_sel[0] != "ok":
+        if v_lists[0] == "ok" and v_flat[0] == "ok":
+            agree = False
+            notes.append(f"views with a field selection raised {v_sel[1]!r}")
+    else:
+        if v_lists[0] == "ok" and repr_lists(v_sel[1][0]) != repr_lists([v_lists[1][names.index(c)] for c in sel]):
+            agree = False
+            notes.append("to_lists(fields=selection) differs from the all-fields list view")
+        if v_flat[0] == "ok" and repr_flat(("ok", v_sel[1][1])) != repr_flat(("ok", (v_flat[1][0], [v_flat[1][1][names.index(c)] for c in sel]))):
+            agree = False
+            notes.append("to_flat(fields=selection) differs from the all-fields flat view")
+
     def cq_flat(x):
         return f"({cq_nats(x[0])}, {cq_list(cq_vals(c) for c in x[1])})"
 
